@@ -81,7 +81,10 @@ def run(ck, fb, tier):
         for name, assume, floor in TARGETS:
             if cfg != "A" and tier != "thorough" and name not in ("SCPI_FloatToStr", "SCPI_DoubleToStr"):
                 continue
-            an = BR.check_function(ck, prog, "C15-W", name, assume=assume, min_sites=floor)
+            f_ = prog.fn(name)
+            caps_ = BR.caps_for(prog, name) if f_ is not None else {}
+            rl = sorted(caps_)[0] if caps_ and name in ("SCPI_NumberToStr", "SCPI_FloatToStr", "SCPI_DoubleToStr") else None
+            an = BR.check_function(ck, prog, "C15-W", name, assume=assume, min_sites=floor, returns_length_of=rl)
         if prog.fn("SCPI_dtostre") is not None and (cfg in ("D", "E") or tier == "thorough"):
             BR.check_function(ck, prog, "C15-W", "SCPI_dtostre", assume=[("__prec", "<=", 15)], min_sites=10)
             ck.assume("SCPI_dtostre is called with precision <= 15 (the library's call sites pass 6 and 15; C16's range)")
